@@ -68,7 +68,8 @@ pub fn arg_time(v: &Value) -> TemporalResult<PlainTime> {
 pub fn arg_datetime(v: &Value) -> TemporalResult<PlainDateTime> {
     PlainDateTime::try_new(js::i(v, "y") as i32, js::i(v, "m") as u8, js::i(v, "d") as u8,
         js::i(v, "h") as u8, js::i(v, "mi") as u8, js::i(v, "s") as u8,
-        js::i(v, "ms") as u16, js::i(v, "us") as u16, js::i(v, "ns") as u16, iso())
+        js::i(v, "ms") as u16, js::i(v, "us") as u16, js::i(v, "ns") as u16,
+        match v.get("cal").and_then(|c| c.as_str()) { Some(c) => Calendar::from_str(c)?, None => iso() })
 }
 pub fn arg_instant(v: &Value) -> TemporalResult<Instant> { Instant::try_new(num(v)) }
 
